@@ -1875,6 +1875,8 @@ func (c *Ctx) base85Rules() {
 			return ""
 		}
 		m := c.newScan(in)
+		// small arrays are values: the four bytes of a group may travel as a [4]byte (ext_d.go)
+		m.ev.arrays = true
 		ret := m.run(fn)
 		if len(ret) != 2 {
 			return fmt.Sprintf("%q could not be evaluated (%s)", in, m.why)
